@@ -21,7 +21,9 @@ import os
 from harness import tlc, graph, tlaval
 from harness import schemakit as K
 
-DEV = '{"AttachNoPrefix", "EmptySearch", "SegNoParent"}'
+# deviations modelled as coded (see SchemaTree.tla); X02_DEV="" checks a tree in which they are repaired
+DEVS = [d for d in os.environ.get('X02_DEV', 'AttachNoPrefix,EmptySearch,SegNoParent').split(',') if d]
+DEV = '{%s}' % ', '.join('"%s"' % d for d in DEVS)
 BASE = {'Keys': '<- None', 'MaxKeyLen': 2, 'MaxDepth': 3, 'MaxNodes': 3, 'Kinds': '{"node"}', 'PolChoices': '<- None',
         'MaxPol': 0, 'RootPrefixes': '<- None', 'AttachPrefixes': '<- None', 'QNames': '<- None', 'QFiner': '<- None',
         'QueryOn': 'TRUE', 'Contents': '<- None', 'SegContents': '<- None', 'AppParams': '<- None',
@@ -101,7 +103,8 @@ def tlc_jobs(ctx, jobs, par):
         if 'names' not in x:
             continue
         unreached = set(re.findall(r'<<"UNREACHED", "(\w+)">>', r.out))
-        missing = [w for w in x['names'] if w in unreached]
+        only_with = {'W_AttachPrefixLost': 'AttachNoPrefix', 'W_EmptySearchRaise': 'EmptySearch'}    # situations of a deviation
+        missing = [w for w in x['names'] if w in unreached and (w not in only_with or only_with[w] in DEVS)]
         if missing:
             raise tlc.MachineryError('vacuous: SchemaTree witnesses not reachable (%s): %s' % (label, ', '.join(missing)))
         untaken = set(re.findall(r'<<"UNTAKEN", "(\w+)">>', r.out))
@@ -335,7 +338,7 @@ def replay_path(ctx, g, init, dsts, recs, q, pq):
     try:
         p0 = run.project()
         rec = {'cfg': cfg_of_projection(p0), 'ev': ev, 'src': 'B'}
-        d = [x for x in K.diff(K.expected(st0), p0) if x[0] != 'res']
+        d = [x for x in K.diff(K.expected(st0, DEVS), p0) if x[0] != 'res']
         if d:
             return 0, (0, ('Init',), d)
         for i, dst in enumerate(dsts):
@@ -347,7 +350,7 @@ def replay_path(ctx, g, init, dsts, recs, q, pq):
                 return i, (i + 1, call, [('exception', 'none', '%s: %s' % (type(e).__name__, e))])
             got = run.project()
             ev.append({'call': to_json_call(call), 'post': got})
-            d = K.diff(K.expected(st), got)
+            d = K.diff(K.expected(st, DEVS), got)
             if d:
                 return i + 1, (i + 1, call, d)
             while q is not None and q.rng.random() < pq:
@@ -440,7 +443,7 @@ def stage_b(ctx, recs):
 
 
 def cfg_of_projection_of_state(st):
-    e = K.expected(st)
+    e = K.expected(st, DEVS)
     return {'tree': e['tree'], 'rprefix': e['rprefix']}
 
 
@@ -458,6 +461,8 @@ class Driver:
         self.rng = rng
         self.q = Queries(rng)
         self.big = big
+        self.provided = []
+        self.last = None
 
     def keys(self, n):
         rng = self.rng
@@ -568,7 +573,7 @@ class Driver:
             elif pending and x < 0.8:
                 self.do(run, ev, ['Fail', rng.choice(['nack', 'timeout'])])
             elif x < 0.3 or (pending and x < 0.9):
-                name = self.q.name(run)
+                name = self.pick_name(run)
                 try:
                     m = run.root.match(K.name_real(name))
                 except ValueError:
@@ -581,14 +586,16 @@ class Driver:
                     self.do(run, ev, ['ProvideSeg', name, chunks, rng.random() < 0.3])
                 else:
                     self.do(run, ev, ['Provide', name, self.content(), rng.random() < 0.3])
+                self.provided.append(name)
             elif x < 0.6 and not pending:
                 ap = PLAIN('q') if rng.random() < 0.25 else dict(K.NOCONTENT)
-                self.do(run, ev, ['Need', self.q.name(run), ap, rng.random() < 0.4])
+                self.do(run, ev, ['Need', self.pick_name(run), ap, rng.random() < 0.4])
             elif x < 0.85:
-                name = self.q.name(run)
+                name = self.pick_name(run, routed=True)
                 if not name:
                     continue
-                ap = PLAIN('q') if rng.random() < 0.4 else dict(K.NOCONTENT)
+                ap = rng.choice([PLAIN('q'), {'k': 'c', 'e': 'k1', 'v': 'q'}, {'k': 'c', 'e': 'k2', 'v': 'q'}]) if rng.random() < 0.4 \
+                    else dict(K.NOCONTENT)
                 sg = 'none' if ap['k'] == 'none' else rng.choice(['none', 'good', 'bad'])
                 self.do(run, ev, ['Interest', name, ap, sg])
             else:
@@ -597,6 +604,40 @@ class Driver:
     def do(self, run, ev, call):
         self.last = call
         self.step(run, ev, call)
+
+    def pick_name(self, run, routed=False):
+        """a name for a pipeline operation: something provided before (or a prefix / extension of it), an object of a
+        SegmentedNode, a name under a registered prefix, or any name"""
+        rng = self.rng
+        x = rng.random()
+        if rng.random() < 0.04:
+            return []
+        if self.provided and x < 0.4:
+            n = [list(c) for c in rng.choice(self.provided)]
+            y = rng.random()
+            if y < 0.25 and len(n) > 1:
+                n = n[:rng.randint(1, len(n) - 1)]
+            elif y < 0.35:
+                n.append(self.q.comp())
+            return n
+        segs = [p for p, nd, _ in run.walk() if isinstance(nd, K.SegmentedNode)]
+        if segs and x < 0.65:
+            p = segs[rng.randrange(len(segs))]
+            n = [list(c) for c in K.name_model(run.root.prefix)]
+            for e in p:
+                n.append([e[1], e[2]] if e[0] == 'l' else [e[1], rng.choice(self.q.VALS.get(e[1], ['0']))])
+            if rng.random() < 0.2:
+                n.append([50, str(rng.randrange(3))])
+            return n
+        if routed and run.reg and x < 0.9:
+            n = [list(c) for c in run.reg[rng.randrange(len(run.reg))]]
+            for _ in range(rng.randint(0, 3)):
+                n.append(self.q.comp())
+            return n
+        n = self.q.name(run)
+        if not n and rng.random() < 0.8:
+            n = [self.q.comp()]
+        return n
 
     def queries(self, run, ev, p):
         while self.rng.random() < p:
@@ -630,26 +671,34 @@ TRACE_CONSTS = {'Keys': '<- TrNone', 'MaxKeyLen': 1, 'MaxDepth': 9, 'MaxNodes': 
                 'MaxPol': 1000, 'RootPrefixes': '<- TrNone', 'AttachPrefixes': '<- TrNone', 'QNames': '<- TrNone', 'QFiner': '<- TrNone',
                 'QueryOn': 'TRUE', 'Contents': '<- TrNone', 'SegContents': '<- TrNone', 'AppParams': '<- TrNone',
                 'NetContents': '<- TrNone', 'ExtComps': '<- TrNone', 'MaxOps': 1000, 'SegRetry': 2, 'MaxSegs': 1000, 'InitTrees': '<- TrNone',
-                'Dev': '<- TrDev', 'INames': '<- TrNames'}
+                'Dev': DEV, 'INames': '<- TrNames'}
 TRACE_INVS = ['TypeOK', 'TreeWF', 'MatchGreedy', 'MatchPolNearest', 'MatchEnv', 'GetPolicyNearest', 'FinerIsMatch',
               'NotAttachedNoRoutes', 'RegExact', 'CacheWF', 'NoSendOnHit', 'InterestHit', 'InterestMiss', 'LocalOnlyNeverSends']
 
 
-def judge(ctx, recs, name='x02', batch=1500):
+def judge(ctx, recs, name='x02', batch=None):
     """-> [(index into recs, event number at which the trace was rejected)]"""
+    from concurrent.futures import ThreadPoolExecutor
+    batch = batch or ctx.pick(150, 1000)
     cfgp = os.path.join(tlc.BUILD, 'SchemaTreeTrace.cfg')
     tlc.write_cfg(cfgp, spec='TSpec', constants=TRACE_CONSTS, invariants=TRACE_INVS, constraints=['Mark'], postcondition='Post')
-    rejected = []
-    for b in range(0, len(recs), batch):
+
+    def one(b):
         part = recs[b:b + batch]
         tf = os.path.join(tlc.BUILD, '%s-traces-%s-%d.ndjson' % (name, ctx.tier, b))
         with open(tf, 'w') as f:
             for r in part:
                 f.write(json.dumps({'cfg': r['cfg'], 'ev': r['ev']}) + '\n')
-        r, rej = tlc.validate_traces('SchemaTreeTrace', cfgp, tf, timeout=3000)
+        return tlc.validate_traces('SchemaTreeTrace', cfgp, tf, timeout=3000, tag='x02t%d' % b)
+    starts = list(range(0, len(recs), batch))
+    with ThreadPoolExecutor(max_workers=ctx.pick(3, 4)) as ex:
+        results = list(ex.map(one, starts))
+    rejected = []
+    for b, (r, rej) in zip(starts, results):
+        part = recs[b:b + batch]
+        ctx.add_tlc('SchemaTreeTrace (%d traces, %d events)' % (len(part), sum(len(x['ev']) for x in part)), r)
         if os.environ.get('X02_TIMING'):
             print('   judge: %d traces, %d events, %.1fs' % (len(part), sum(len(x['ev']) for x in part), r.wall), flush=True)
-        ctx.add_tlc('SchemaTreeTrace (%d traces, %d events)' % (len(part), sum(len(x['ev']) for x in part)), r)
         if r.violated:
             ctx.violation('X02/trace-invariant/%s' % r.violated, 'invariant %s violated on a recorded history' % r.violated,
                           {'kind': 'errtrace', 'errtrace': r.errtrace})
